@@ -107,6 +107,20 @@ __CPROVER_requires(C08_MEMCPY_GHOST_PRE(src, n))
 __CPROVER_assigns(n != 0: __CPROVER_object_upto(dst, n))
 __CPROVER_ensures(C08_MEMCPY_POST(__CPROVER_return_value, dst, n));
 
+/* ------------------------------------------------------------------ memmove (ISO 7.24.2.2) */
+/* same clause texts as memmove in contracts/libc_contracts.h (unit libc_memmove_contract enforces the literal
+ * libc_contracts.h contract on a wrapper of vc_memmove) */
+size_t g_memmove_k; /* in: ghost index */
+char g_memmove_v;   /* in: old src[k] */
+#define C08_MEMMOVE_GHOST_PRE(src, n) C08_IMP(g_memmove_k < (n), g_memmove_v == ((const char *)(src))[g_memmove_k])
+#define C08_MEMMOVE_POST(r, dst, n)                                                                   \
+    ((r) == (dst) && C08_IMP(g_memmove_k < (n), ((const char *)(dst))[g_memmove_k] == g_memmove_v))
+void *vc_memmove(void *dst, const void *src, size_t n)
+__CPROVER_requires(C08_MEM_ACCESS_PRE(dst, src, n))
+__CPROVER_requires(C08_MEMMOVE_GHOST_PRE(src, n))
+__CPROVER_assigns(n != 0: __CPROVER_object_upto(dst, n))
+__CPROVER_ensures(C08_MEMMOVE_POST(__CPROVER_return_value, dst, n));
+
 /* ------------------------------------------------------------------ strlen (ISO 7.24.6.3) */
 size_t g_strlen_L; /* in: witness, str[g_strlen_L] == 0 */
 size_t g_strlen_k; /* in: ghost index */
@@ -209,6 +223,67 @@ char *vc_strcpy(char *dest, const char *src)
 __CPROVER_requires(C08_STRCPY_PRE(dest, src))
 __CPROVER_assigns(__CPROVER_object_upto(dest, g_strcpy_L + 1), g_strcpy_len)
 __CPROVER_ensures(C08_STRCPY_POST(__CPROVER_return_value, dest, src));
+
+/* ------------------------------------------------------------------ strtok_r (POSIX) */
+char *g_strtok_S;      /* in: the string actually scanned = str != NULL ? str : *saveptr */
+size_t g_strtok_L;     /* in: witness, S[L] == 0 (when S != NULL) */
+size_t g_strtok_Ld;    /* in: witness, delim[Ld] == 0 */
+size_t g_strtok_k;     /* in: ghost index into S */
+size_t g_strtok_j;     /* in: ghost index into delim */
+char g_strtok_v;       /* in: old S[k] */
+size_t g_strtok_t;     /* out: index of the first non-delimiter (token start), or of the terminator if there is none */
+size_t g_strtok_e;     /* out: index of the first delimiter / terminator after the token */
+size_t g_strtok_w;     /* out: witness index into delim classifying S[k] (see MEMBER / NONMEMBER) */
+size_t g_strtok_next;  /* out: index of the saved pointer: *saveptr == S + next */
+#ifndef KF_C08_strtok_r_saveptr
+#define KF_C08_strtok_r_saveptr 0
+#endif
+/* c occurs in delim before its terminator / c does not occur in delim up to a NUL of delim */
+#define C08_STRTOK_MEMBER(c, delim)                                                                   \
+    (g_strtok_w <= g_strtok_Ld && ((const char *)(delim))[g_strtok_w] == (c) &&                       \
+     C08_IMP(g_strtok_j < g_strtok_w, ((const char *)(delim))[g_strtok_j] != 0))
+#define C08_STRTOK_NONMEMBER(c, delim)                                                                \
+    (g_strtok_w <= g_strtok_Ld && ((const char *)(delim))[g_strtok_w] == 0 &&                         \
+     C08_IMP(g_strtok_j < g_strtok_w, ((const char *)(delim))[g_strtok_j] != (c)))
+#define C08_STRTOK_R_PRE(str, delim, saveptr)                                                         \
+    (__CPROVER_rw_ok((saveptr), sizeof(char *)) && g_strtok_S == ((str) != NULL ? (str) : *(saveptr)) && \
+     C08_IS_STR(delim, g_strtok_Ld) && !__CPROVER_same_object((delim), (saveptr)) &&                   \
+     (g_strtok_S == NULL ||                                                                           \
+      (g_strtok_L < C08_MAXLEN && __CPROVER_w_ok(g_strtok_S, g_strtok_L + 1) && g_strtok_S[g_strtok_L] == 0 && \
+       !__CPROVER_same_object(g_strtok_S, (saveptr)) && !__CPROVER_same_object(g_strtok_S, (delim)) &&  \
+       C08_IMP(g_strtok_k <= g_strtok_L, g_strtok_v == g_strtok_S[g_strtok_k]))))
+/* part of the postcondition that does not mention *saveptr (also what strtok shows to its caller) */
+#define C08_STRTOK_CORE_POST(r, delim)                                                                \
+    (g_strtok_S == NULL ? (r) == NULL :                                                               \
+     (g_strtok_t <= g_strtok_L &&                                                                     \
+      /* leading delimiters are skipped */                                                            \
+      C08_IMP(g_strtok_k < g_strtok_t, g_strtok_v != 0 && C08_STRTOK_MEMBER(g_strtok_v, delim)) &&    \
+      ((r) == NULL                                                                                    \
+           /* no token: the terminator was reached, the string is intact */                           \
+           ? (C08_IMP(g_strtok_k == g_strtok_t, g_strtok_v == 0) &&                                   \
+              C08_IMP(g_strtok_k <= g_strtok_L, g_strtok_S[g_strtok_k] == g_strtok_v))                \
+           /* token S[t..e): non-delimiters, ended by a delimiter (overwritten with NUL) or the terminator */ \
+           : ((r) == g_strtok_S + g_strtok_t && g_strtok_t < g_strtok_e && g_strtok_e <= g_strtok_L && \
+              C08_IMP(g_strtok_t <= g_strtok_k && g_strtok_k < g_strtok_e,                            \
+                      g_strtok_v != 0 && C08_STRTOK_NONMEMBER(g_strtok_v, delim)) &&                  \
+              g_strtok_S[g_strtok_e] == 0 &&                                                          \
+              C08_IMP(g_strtok_k == g_strtok_e, g_strtok_v == 0 || C08_STRTOK_MEMBER(g_strtok_v, delim)) && \
+              C08_IMP(g_strtok_k <= g_strtok_L && g_strtok_k != g_strtok_e, g_strtok_S[g_strtok_k] == g_strtok_v)))))
+/* the saved pointer: behind the overwritten delimiter, or at the terminator (then every later call returns NULL).
+ * Known finding C08_strtok_r_saveptr: when NO token is found the shim leaves *saveptr untouched (glibc, musl,
+ * BSD store the position of the terminator); clause (*) is asserted only when the finding is not carved. */
+#define C08_STRTOK_SAVE_POST(r, saveptr)                                                              \
+    (g_strtok_S == NULL ? 1 :                                                                         \
+     (r) == NULL ? (KF_C08_strtok_r_saveptr == 1 || /* (*) */ (*(saveptr) == g_strtok_S + g_strtok_t && g_strtok_next == g_strtok_t)) \
+                 : (*(saveptr) == g_strtok_S + g_strtok_next && g_strtok_next <= g_strtok_L &&        \
+                    (g_strtok_next == g_strtok_e || g_strtok_next == g_strtok_e + 1) &&               \
+                    C08_IMP(g_strtok_k == g_strtok_e, (g_strtok_v == 0) == (g_strtok_next == g_strtok_e))))
+char *vc_strtok_r(char *str, const char *delim, char **saveptr)
+__CPROVER_requires(C08_STRTOK_R_PRE(str, delim, saveptr))
+__CPROVER_assigns(*saveptr, g_strtok_t, g_strtok_e, g_strtok_w, g_strtok_next)
+__CPROVER_assigns(g_strtok_S != NULL: __CPROVER_object_upto(g_strtok_S, g_strtok_L + 1))
+__CPROVER_ensures(C08_STRTOK_CORE_POST(__CPROVER_return_value, delim))
+__CPROVER_ensures(C08_STRTOK_SAVE_POST(__CPROVER_return_value, saveptr));
 
 /*C08_CONTRACTS_END*/
 #endif
